@@ -210,7 +210,7 @@ class DAGRunConcurrentManager(DAGRunManagerLike):
                     )
 
         else:
-            kwargs = self.ctx.input_kwargs
+            kwargs = dict(self.ctx.input_kwargs)
 
         additional_data = self._additional_data.get(node_id)
 
